@@ -8,7 +8,6 @@ gfortran build of the transformed sources prints."""
 import copy
 import os
 import subprocess
-from fractions import Fraction
 
 from . import lib_fm as F
 from .lib_fm import V, N, op, call, el, cmp_, assign, decl, unit, NONE, rng_
